@@ -318,6 +318,11 @@ var prop = stats.Prop(R, "message", gen1, check)
 
 func TestMessage(t *testing.T) { rapid.Check(t, prop) }
 
+// Concurrent decoding of independent messages must give each its own exact result.
+var propParallel = stats.ParallelProp(R, "parallel", gen1, check, 4)
+
+func TestParallel(t *testing.T) { rapid.Check(t, propParallel) }
+
 func TestReplay(t *testing.T) { R.Replay(t) }
 
 // FuzzMessage runs the same property under Go's coverage-guided fuzzer (the
